@@ -75,6 +75,8 @@ HOME = {
     ("src/qvector/rs_qvector.rs", "select_in_word_u128"): "src/utils/mod.rs",
     ("src/quadwt/mod.rs", "RSQVector"): "src/qvector/rs_qvector.rs",
     ("src/quadwt/huffqwt.rs", "RSQVector"): "src/qvector/rs_qvector.rs",
+    ("src/binwt/mod.rs", "RSWide"): "src/bitvector/rs_wide.rs",
+    ("src/binwt/mod.rs", "PrefixCode"): "src/quadwt/huffqwt.rs",
     ("src/darray/mod.rs", "BitVector"): "src/bitvector/mod.rs",
     ("src/darray/mod.rs", "select_in_word"): "src/utils/mod.rs",
 }
@@ -115,6 +117,10 @@ TARGETS = list(GL.TARGETS) + [
     ("src/bitvector/rs_wide.rs", "RSWide", "select0_unchecked", "g_rsw_select0_unchecked", {}),
     ("src/bitvector/rs_wide.rs", "RSWide", "select1", "g_rsw_select1", {}),
     ("src/bitvector/rs_wide.rs", "RSWide", "select0", "g_rsw_select0", {}),
+    ("src/bitvector/rs_wide.rs", "RSWide", "get_unchecked", "g_rsw_get_unchecked", {}),
+    ("src/bitvector/rs_wide.rs", "RSWide", "get", "g_rsw_get", {}),
+    ("src/bitvector/rs_wide.rs", "RSWide", "rank0@RankBin@src/lib.rs", "g_rsw_rank0", {}),
+    ("src/bitvector/rs_wide.rs", "RSWide", "rank0_unchecked@RankBin@src/lib.rs", "g_rsw_rank0_unchecked", {}),
     # ---- group rss: SuperblockPlain / RSSupportPlain (both block sizes)
     ("src/qvector/rs_qvector/rs_support_plain.rs", "SuperblockPlain", "get_block_counter", "g_sb_get_block_counter", {}),
     ("src/qvector/rs_qvector/rs_support_plain.rs", "SuperblockPlain", "block_predecessor", "g_sb_block_predecessor", {}),
@@ -200,6 +206,28 @@ TARGETS = list(GL.TARGETS) + [
     ("src/quadwt/huffqwt.rs", "HuffQWaveletTree", "rank", "g_hqwt512_rank", {"T": "@T", "RS": "RSQVector", "S": "RSSupportPlain", "B_SIZE": 512}),
     ("src/quadwt/huffqwt.rs", "HuffQWaveletTree", "select", "g_hqwt512_select", {"T": "@T", "RS": "RSQVector", "S": "RSSupportPlain", "B_SIZE": 512}),
     ("src/quadwt/huffqwt.rs", "HuffQWaveletTree", "select_unchecked", "g_hqwt512_select_unchecked", {"T": "@T", "RS": "RSQVector", "S": "RSSupportPlain", "B_SIZE": 512}),
+    # ---- group wt: binary WaveletTree walks (plain and Huffman-shaped), BRS = RSWide
+    ("src/binwt/mod.rs", "WaveletTree", "bit_at", "g_wt_bit_at", {"T": "@T", "BRS": "RSWide", "COMPRESSED": False}),
+    ("src/binwt/mod.rs", "WaveletTree", "len", "g_wt_len", {"T": "@T", "BRS": "RSWide", "COMPRESSED": False}),
+    ("src/binwt/mod.rs", "WaveletTree", "is_empty", "g_wt_is_empty", {"T": "@T", "BRS": "RSWide", "COMPRESSED": False}),
+    ("src/binwt/mod.rs", "WaveletTree", "n_levels", "g_wt_n_levels", {"T": "@T", "BRS": "RSWide", "COMPRESSED": False}),
+    ("src/binwt/mod.rs", "WaveletTree", "get_unchecked", "g_wt_get_unchecked", {"T": "@T", "BRS": "RSWide", "COMPRESSED": False}),
+    ("src/binwt/mod.rs", "WaveletTree", "get", "g_wt_get", {"T": "@T", "BRS": "RSWide", "COMPRESSED": False}),
+    ("src/binwt/mod.rs", "WaveletTree", "rank_unchecked", "g_wt_rank_unchecked", {"T": "@T", "BRS": "RSWide", "COMPRESSED": False}),
+    ("src/binwt/mod.rs", "WaveletTree", "rank", "g_wt_rank", {"T": "@T", "BRS": "RSWide", "COMPRESSED": False}),
+    ("src/binwt/mod.rs", "WaveletTree", "select", "g_wt_select", {"T": "@T", "BRS": "RSWide", "COMPRESSED": False}),
+    ("src/binwt/mod.rs", "WaveletTree", "select_unchecked", "g_wt_select_unchecked", {"T": "@T", "BRS": "RSWide", "COMPRESSED": False}),
+    ("src/binwt/mod.rs", "WaveletTree", "has_code", "g_hwt_has_code", {"T": "@T", "BRS": "RSWide", "COMPRESSED": True}),
+    ("src/binwt/mod.rs", "WaveletTree", "bit_at", "g_hwt_bit_at", {"T": "@T", "BRS": "RSWide", "COMPRESSED": True}),
+    ("src/binwt/mod.rs", "WaveletTree", "len", "g_hwt_len", {"T": "@T", "BRS": "RSWide", "COMPRESSED": True}),
+    ("src/binwt/mod.rs", "WaveletTree", "is_empty", "g_hwt_is_empty", {"T": "@T", "BRS": "RSWide", "COMPRESSED": True}),
+    ("src/binwt/mod.rs", "WaveletTree", "n_levels", "g_hwt_n_levels", {"T": "@T", "BRS": "RSWide", "COMPRESSED": True}),
+    ("src/binwt/mod.rs", "WaveletTree", "get_unchecked", "g_hwt_get_unchecked", {"T": "@T", "BRS": "RSWide", "COMPRESSED": True}),
+    ("src/binwt/mod.rs", "WaveletTree", "get", "g_hwt_get", {"T": "@T", "BRS": "RSWide", "COMPRESSED": True}),
+    ("src/binwt/mod.rs", "WaveletTree", "rank_unchecked", "g_hwt_rank_unchecked", {"T": "@T", "BRS": "RSWide", "COMPRESSED": True}),
+    ("src/binwt/mod.rs", "WaveletTree", "rank", "g_hwt_rank", {"T": "@T", "BRS": "RSWide", "COMPRESSED": True}),
+    ("src/binwt/mod.rs", "WaveletTree", "select", "g_hwt_select", {"T": "@T", "BRS": "RSWide", "COMPRESSED": True}),
+    ("src/binwt/mod.rs", "WaveletTree", "select_unchecked", "g_hwt_select_unchecked", {"T": "@T", "BRS": "RSWide", "COMPRESSED": True}),
 ]
 
 # group -> (source file, owner types or None, first index in TARGETS that belongs to T5)
@@ -213,6 +241,7 @@ GROUPS = {
     "qv2": ("src/qvector/mod.rs", None),
     "qwt": ("src/quadwt/mod.rs", None),
     "hqwt": ("src/quadwt/huffqwt.rs", None),
+    "wt": ("src/binwt/mod.rs", None),
 }
 # which generated files a group's file must import (T3 leaves and earlier T5 groups)
 GROUP_IMPORTS = {
@@ -223,6 +252,7 @@ GROUP_IMPORTS = {
     "qv2": ["LeavesLine", "LeavesQV"],
     "qwt": ["FnsRsq"],
     "hqwt": ["FnsRsq"],
+    "wt": ["FnsBv", "FnsRsw2"],
     "rsq": ["LeavesUtils", "LeavesSB", "LeavesLine", "LeavesQV", "FnsRss", "FnsQv2"],
 }
 
@@ -290,7 +320,15 @@ def scan_items5(toks):
                     i = match_close(toks, j) + 1
                 else:
                     i = j + 1
-            elif t.kind == "id" and t.text in ("mod", "trait") and owner is None:
+            elif t.kind == "id" and t.text == "trait" and owner is None:
+                j = find_open(i)
+                if is_op(j, "{"):
+                    k = match_close(toks, j)
+                    scan(j + 1, k, "trait " + toks[i + 1].text, None)
+                    i = k + 1
+                else:
+                    i = j + 1
+            elif t.kind == "id" and t.text == "mod" and owner is None:
                 j = find_open(i)
                 i = (match_close(toks, j) if is_op(j, "{") else j) + 1
             elif is_op(i, "{"):
@@ -538,7 +576,7 @@ class Parser5(Parser):
                 self.accept(";")
                 if not self.at("}"):
                     self.fail("statement after `return`")
-            elif t.kind == "id" and self.at("!", 1):
+            elif t.kind == "id" and self.at("!", 1) and t.text not in ("if", "while", "match", "return", "for", "in"):
                 if t.text not in ("debug_assert", "assert"):
                     self.fail("macro `%s!`" % t.text)
                 self.i += 2
@@ -561,7 +599,7 @@ class Parser5(Parser):
                     self.expect(";")
                 elif self.at("}"):
                     tail = e
-                elif e[0] in ("if", "block"):
+                elif e[0] in ("if", "block", "iflet"):
                     self.accept(";")
                     stmts.append(("expr", e))
                 elif e[0] == "mcall" and self.at(";"):
@@ -608,9 +646,7 @@ class Parser5(Parser):
             self.expect("=")
             e = self.expr_nostruct()
             th = self.block()
-            if not self.accept("else"):
-                self.fail("`if let` without `else`")
-            el = self.block()
+            el = self.block() if self.accept("else") else None
             return ("iflet", x, e, th, el)
         return super().primary()
 
@@ -676,6 +712,11 @@ class FnT5(FnTranslator):
     def __init__(self, world, unit, owner, fname, coq, subst):
         self.world, self.unit, self.owner, self.coq = world, unit, owner, coq
         trait = None
+        text_unit, text_owner = unit, owner
+        if "@" in fname:
+            # a provided (default) method of a trait, instantiated for the struct `owner`: name@Trait@file
+            fname, tr_name, tr_file = fname.split("@")
+            text_unit, text_owner = world.unit(tr_file), "trait " + tr_name
         if "::" in fname:
             trait, fname = fname.split("::")
         self.fname = fname
@@ -693,14 +734,20 @@ class FnT5(FnTranslator):
         if unit.cparams != self.cparams:
             unit._consts = {}      # values of associated consts depend on the const generic parameters
         unit.cparams = self.cparams
-        start = self.pick(unit, owner, fname, trait)
-        p = Parser5(unit.toks, start, self.where, {})
+        start = self.pick(text_unit, text_owner, fname, trait)
+        p = Parser5(text_unit.toks, start, self.where, {})
         _, self.selfkind, self.params, self.ret, self.body = p.fn()
         self.ret = self.sub_t(self.ret)
         self.params = [(n, self.sub_t(t)) for n, t in self.params]
-        body_open = next(j for j in range(start, p.i) if unit.toks[j].kind == "op" and unit.toks[j].text == "{")
-        self.header = " ".join(unit.src[unit.toks[start].pos:unit.toks[body_open].pos].split())
-        self.used = {t.text for t in unit.toks[start:p.i] if t.kind == "id"}
+        self.body_full = None
+        if any(isinstance(v, bool) for v in self.cparams.values()):
+            self.body_full = self.body
+            self.body = self.prune(self.body)
+        body_open = next(j for j in range(start, p.i) if text_unit.toks[j].kind == "op" and text_unit.toks[j].text == "{")
+        self.header = " ".join(text_unit.src[text_unit.toks[start].pos:text_unit.toks[body_open].pos].split())
+        if text_unit is not unit:
+            self.header += "   (provided method of %s in %s, for %s)" % (text_owner, text_unit.rel, owner)
+        self.used = {t.text for t in text_unit.toks[start:p.i] if t.kind == "id"}
         self.ntmp = 0
         self.fields, self.field_coq, self.used_fields = {}, {}, []
         self.needs_fuel = False
@@ -778,22 +825,23 @@ class FnT5(FnTranslator):
         u, fl = self.fields_of(t[1], unit.rel)
         for fname, fty in fl:
             try:
-                rec = isinstance(fty, tuple) and fty[0] == "struct" and self.is_record(fty, u.rel)
+                out += self.field_leaves(fname, fty, u, prefix)
             except Unsupported:
-                out.append((prefix + (fname,), ("opaque", fname)))
-                continue
-            if rec:
-                out += self.leaf_paths(fty, u, prefix + (fname,))
-            elif is_list(fty) and isinstance(fty[1], tuple) and fty[1][0] == "struct" and self.is_record(fty[1], u.rel):
-                # a slice of structs with several fields: one list per field of the struct
-                out += [(pp, ("slice", tt)) for pp, tt in self.leaf_paths(fty[1], u, prefix + (fname,))]
-            else:
-                try:
-                    nt = self.norm(fty, u.rel)
-                except Unsupported:
-                    nt = ("opaque", fname)      # a field of a type outside the subset: may exist, must not be used
-                out.append((prefix + (fname,), nt))
+                out.append((prefix + (fname,), ("opaque", fname)))   # a field outside the subset: may exist, must not be used
         return out
+
+    def field_leaves(self, fname, fty, u, prefix):
+        def rec(t):
+            return isinstance(t, tuple) and t[0] == "struct" and self.is_record(t, u.rel)
+        if rec(fty):
+            return self.leaf_paths(fty, u, prefix + (fname,))
+        if is_list(fty) and rec(fty[1]):
+            # a slice of structs with several fields: one list per field of the struct
+            return [(pp, ("slice", tt)) for pp, tt in self.leaf_paths(fty[1], u, prefix + (fname,))]
+        if isinstance(fty, tuple) and fty[0] == "option" and is_list(fty[1]) and rec(fty[1][1]):
+            # Option<Vec<struct with several fields>>: one optional list per field (all Some or all None)
+            return [(pp, ("option", ("slice", tt))) for pp, tt in self.leaf_paths(fty[1][1], u, prefix + (fname,))]
+        return [(prefix + (fname,), self.norm(fty, u.rel))]
 
     def norm(self, t, rel):
         """type with one-field structs replaced by their representation"""
@@ -845,6 +893,11 @@ class FnT5(FnTranslator):
                 if k != len(names):
                     self.fail("field of a slice of structs")
                 return ("soa", tuple(path), t[1][1], self.struct_unit(t[1][1], rel).rel)
+            if isinstance(t, tuple) and t[0] == "option" and is_list(t[1]) and isinstance(t[1][1], tuple) and t[1][1][0] == "struct" \
+                    and self.is_record(t[1][1], rel):
+                if k != len(names):
+                    self.fail("field of an optional slice of structs")
+                return ("osoa", tuple(path), t[1][1][1], self.struct_unit(t[1][1][1], rel).rel)
             if not (isinstance(t, tuple) and t[0] == "struct" and self.is_record(t, rel)):
                 # leaf reached: the remaining names project inside one-field structs (identity)
                 ty = self.norm(t, rel)
@@ -923,9 +976,35 @@ class FnT5(FnTranslator):
                     if r[1] not in used:
                         used.append(r[1])
                     return
+                if r[0] == "osoa":
+                    for pp in self.soa_leaves(r):
+                        if pp not in used:
+                            used.append(pp)
+                    return
                 self.fail("struct-valued field `self.%s` used as a value" % ".".join(names))
         for x in e:
             self.scan_paths(x, used)
+
+    def osoa_unwrap(self, e):
+        """e = self.f.as_ref().unwrap() with f an optional slice of several-field structs: ('osoa', path, struct, rel)"""
+        while e[0] == "ref" or (e[0] == "un" and e[1] == "*"):
+            e = e[1] if e[0] == "ref" else e[2]
+        if e[0] == "mcall" and e[2] == "unwrap" and not e[3] and e[1][0] == "mcall" and e[1][2] == "as_ref" and not e[1][3]:
+            names = self.chain(e[1][1]) if e[1][1][0] == "field" else None
+            if names:
+                r = self.resolve_chain(names)
+                if r[0] == "osoa":
+                    return r
+        return None
+
+    def unwrap_osoa(self, r, cx):
+        """the lists of an optional slice of structs, unwrapped (Fault Panic when None): {leaf path: coq name}"""
+        lists = {}
+        for pp in self.soa_leaves(r):
+            nm = self.fresh()
+            cx.lines.append("let! %s := %s in" % (nm, app("ounwrap", self.path_coq[pp])))
+            lists[pp] = nm
+        return lists
 
     def soa_chain(self, e):
         """e = self.f.. naming a slice of several-field structs: ('soa', path, struct, rel)"""
@@ -958,18 +1037,32 @@ class FnT5(FnTranslator):
             x = x[1] if x[0] == "ref" else x[2]
         if x[0] == "var" and x[1] in env and isinstance(env[x[1]][1], tuple) and env[x[1]][1][0] == "soaelem":
             r, ixv = env[x[1]][1][1], env[x[1]][1][2]
+            lists = env[x[1]][1][3] if len(env[x[1]][1]) > 3 else None
             pp = r[1] + (e[2],)
             if pp not in self.path_ty:
                 self.fail("field `.%s` of an element of self.%s" % (e[2], ".".join(r[1])))
-            return self.path_coq[pp], ("term", ixv), self.path_ty[pp][1]
+            return (lists[pp] if lists else self.path_coq[pp]), ("term", ixv), self.elem_ty(pp)
+        if x[0] == "index" and x[1][0] == "var" and x[1][1] in env and isinstance(env[x[1][1]][1], tuple) \
+                and env[x[1][1]][1][0] == "soaval":
+            r, lists = env[x[1][1]][1][1], env[x[1][1]][1][2]
+            pp = r[1] + (e[2],)
+            if pp not in lists:
+                self.fail("field `.%s` of an element of self.%s" % (e[2], ".".join(r[1])))
+            return lists[pp], ("expr", x[2]), self.elem_ty(pp)
         soa = self.soa_recv(x)
         if soa is not None:
             r, ix = soa
             pp = r[1] + (e[2],)
             if pp not in self.path_ty:
                 self.fail("field `.%s` of an element of self.%s" % (e[2], ".".join(r[1])))
-            return self.path_coq[pp], ("expr", ix), self.path_ty[pp][1]
+            return self.path_coq[pp], ("expr", ix), self.elem_ty(pp)
         return None
+
+    def elem_ty(self, pp):
+        t = self.path_ty[pp]
+        if t[0] == "option":
+            t = t[1]
+        return t[1]
 
     def soa_recv(self, recv):
         """recv = self.f..[ix] with f.. a slice of several-field structs: (('soa', path, struct, rel), ix)"""
@@ -1018,7 +1111,7 @@ class FnT5(FnTranslator):
         if k == "var" and e[1] == "None" and e[1] not in env:
             return exp if isinstance(exp, tuple) and exp[0] == "option" else None
         if k == "var" and e[1] in self.cparams and e[1] not in env:
-            return "usize"
+            return "bool" if isinstance(self.cparams[e[1]], bool) else "usize"
         if k == "field":
             names = self.chain(e)
             if names is not None:
@@ -1039,6 +1132,8 @@ class FnT5(FnTranslator):
             u = self.struct_unit(self.tsubst[e[1][0]])
             return u.const(self.tsubst[e[1][0]], e[1][1], self.where)[0]
         if k == "iflet":
+            if e[4] is None:
+                self.fail("`if let` without `else` used as a value")
             ot = self.ty(e[2], None, env)
             if not (isinstance(ot, tuple) and ot[0] == "option"):
                 self.fail("`if let Some(..)` on a value of type %s" % (ot,))
@@ -1081,6 +1176,11 @@ class FnT5(FnTranslator):
                 return "bool"
         if k == "mcall" and e[2] == "len" and not e[3] and self.soa_chain(e[1]) is not None:
             return "usize"
+        if k == "mcall" and e[2] == "len" and not e[3] and e[1][0] == "var" and e[1][1] in env \
+                and isinstance(env[e[1][1]][1], tuple) and env[e[1][1]][1][0] == "soaval":
+            return "usize"
+        if k == "mcall" and e[2] == "as_ref" and not e[3]:
+            return self.ty(e[1], exp, env)
         if k == "call" and len(e[1]) == 2 and self.tsubst.get(e[1][0]) == "@T" and e[1][1] == "from" and len(e[3]) == 1:
             return ("option", "@T")
 
@@ -1167,6 +1267,15 @@ class FnT5(FnTranslator):
             if isinstance(e, tuple) and e and e[0] == "index" and e[2] == ("var", name):
                 found.append("usize")
                 return
+            if isinstance(e, tuple) and e and e[0] == "call" and ("var", name) in e[3]:
+                try:
+                    sig = self.static_sig(e[1])
+                    for a, (_, pt) in zip(e[3], sig.params):
+                        if a == ("var", name) and (pt in INT or pt in SINT):
+                            found.append(pt)
+                            return
+                except Unsupported:
+                    pass
             if isinstance(e, tuple) and e and e[0] == "bin" and e[1] not in ("<<", ">>", "&&", "||"):
                 for a, b in ((e[2], e[3]), (e[3], e[2])):
                     if a == ("var", name):
@@ -1226,6 +1335,20 @@ class FnT5(FnTranslator):
         env = dict(env)
         env.pop(name, None)
         walk(stmts, env)
+        if not found and getattr(self, "body_full", None) is not None:
+            # types are inferred before monomorphisation: the code pruned for this value of the const generic
+            # parameters still constrains the variable
+            full = self.body_full[1]
+            for n, st in enumerate(full):
+                if st[0] in ("let", "letdecl") and st[1] == name:
+                    saved, self.body_full = self.body_full, None
+                    try:
+                        walk(full[n + 1:], env)
+                        if not found and self.body_full is None and saved[2] is not None:
+                            expr(saved[2], env)
+                    finally:
+                        self.body_full = saved
+                    break
         return found[0] if found else None
 
     def let_types(self, s, env, bind, rest=None):
@@ -1378,6 +1501,12 @@ class FnT5(FnTranslator):
         if k == "mcall" and e[2] == "len" and not e[3] and self.soa_chain(e[1]) is not None:
             first = self.soa_leaves(self.soa_chain(e[1]))[0]
             return app("len", self.path_coq[first]), True
+        if k == "mcall" and e[2] == "len" and not e[3] and e[1][0] == "var" and e[1][1] in env \
+                and isinstance(env[e[1][1]][1], tuple) and env[e[1][1]][1][0] == "soaval":
+            r, lists = env[e[1][1]][1][1], env[e[1][1]][1][2]
+            return app("len", lists[self.soa_leaves(r)[0]]), True
+        if k == "mcall" and e[2] == "as_ref" and not e[3]:
+            return self.emit(e[1], exp, cx)
         if k == "call" and len(e[1]) == 2 and self.tsubst.get(e[1][0]) == "@T" and e[1][1] == "from" and len(e[3]) == 1:
             self.need(e[3][0], "@T", env, "@T")
             return app("Some", self.val(e[3][0], "@T", cx)), True
@@ -1418,7 +1547,8 @@ class FnT5(FnTranslator):
                 self.fail("`None` whose type is not determined by its context")
             return "None", True
         if k == "var" and e[1] in self.cparams and e[1] not in env:
-            return str(self.cparams[e[1]]), True
+            v = self.cparams[e[1]]
+            return (("true" if v else "false") if isinstance(v, bool) else str(v)), True
         if k == "field":
             names = self.chain(e)
             if names is None:
@@ -1644,6 +1774,63 @@ class FnT5(FnTranslator):
             return "(if %s then %s else\n%s)" % (a, short, body), False
         return super().emit_bin(e, exp, cx)
 
+    def const_bool(self, e):
+        """value of a condition made of const generic bool parameters (`COMPRESSED`, `!COMPRESSED`), else None"""
+        if e[0] == "var" and isinstance(self.cparams.get(e[1]), bool):
+            return self.cparams[e[1]]
+        if e[0] == "un" and e[1] == "!":
+            v = self.const_bool(e[2])
+            return None if v is None else (not v)
+        return None
+
+    def prune(self, x):
+        """the syntax tree with every `if C {A} else {B}` / `C && x` / `C || x` on a const generic bool C replaced by
+        the part rustc keeps (the other part is dead code for this monomorphisation); taken `if` statements are
+        spliced into the enclosing statement list"""
+        if isinstance(x, list):
+            out = []
+            for y in x:
+                y = self.prune(y)
+                if isinstance(y, tuple) and y and y[0] == "splice":
+                    out += y[1]
+                else:
+                    out.append(y)
+            return out
+        if not isinstance(x, tuple) or not x:
+            return x
+        if x[0] == "block":
+            stmts = self.prune(x[1])
+            tail = self.prune(x[2]) if x[2] is not None else None
+            if isinstance(tail, tuple) and tail and tail[0] == "splice":
+                return ("block", stmts + tail[1], tail[2])
+            return ("block", stmts, tail)
+        if x[0] == "expr" and x[1][0] == "if" and self.const_bool(x[1][1]) is not None:
+            taken = x[1][2] if self.const_bool(x[1][1]) else x[1][3]
+            if taken is None:
+                return ("splice", [], None)
+            b = self.prune(taken)
+            if b[2] is not None:
+                return ("splice", b[1] + [("expr", b[2])] if b[2][0] in ("if", "block") else b[1], None)
+            return ("splice", b[1], None)
+        if x[0] == "if" and self.const_bool(x[1]) is not None:
+            taken = x[2] if self.const_bool(x[1]) else x[3]
+            if taken is None:
+                return ("block", [], None)
+            b = self.prune(taken)
+            if not b[1] and b[2] is not None:
+                return b[2]
+            return ("splice", b[1], b[2]) if False else b
+        if x[0] == "bin" and x[1] in ("&&", "||"):
+            a, b = self.prune(x[2]), self.prune(x[3])
+            for u, v in ((a, b), (b, a)):
+                cv = self.const_bool(u)
+                if cv is not None:
+                    if x[1] == "&&":
+                        return v if cv else ("bool", False)
+                    return ("bool", True) if cv else v
+            return ("bin", x[1], a, b)
+        return tuple(self.prune(y) if isinstance(y, (tuple, list)) else y for y in x)
+
     # ---- statements
     def diverges(self, blk):
         """the block always leaves through return / break"""
@@ -1784,6 +1971,7 @@ class FnT5(FnTranslator):
                 L.append("TRY _ := %s" % v)
             elif k == "let" and isinstance(s[1], str) and s[3] is not None and self.soa_elem_init(s[3]) is not None:
                 r, ix = self.soa_elem_init(s[3])
+                lists = self.unwrap_osoa(r, cx) if r[0] == "osoa" else {pp: self.path_coq[pp] for pp in self.soa_leaves(r)}
                 self.need(ix, "usize", cx.env, "usize")
                 iv = self.val(ix, "usize", cx)
                 if not re.fullmatch(r"[A-Za-z_][A-Za-z0-9_']*|[0-9]+", iv):
@@ -1791,8 +1979,13 @@ class FnT5(FnTranslator):
                     L.append("let %s := %s in" % (nm, iv))
                     iv = nm
                 first = self.soa_leaves(r)[0]
-                L.append("let! _ := %s in" % app("idx", self.path_coq[first], iv))
-                cx.env[s[1]] = (None, ("soaelem", r, iv), cx.depth)
+                L.append("let! _ := %s in" % app("idx", lists[first], iv))
+                cx.env[s[1]] = (None, ("soaelem", r, iv, lists), cx.depth)
+                self.nominal.pop(s[1], None)
+            elif k == "let" and isinstance(s[1], str) and s[3] is not None and self.osoa_unwrap(s[3]) is not None:
+                r = self.osoa_unwrap(s[3])
+                lists = self.unwrap_osoa(r, cx)
+                cx.env[s[1]] = (None, ("soaval", r, lists), cx.depth)
                 self.nominal.pop(s[1], None)
             elif k == "let":
                 t = self.let_types(s, cx.env, lambda a, b: None, (rest, tail, flow.exp))
@@ -1812,6 +2005,7 @@ class FnT5(FnTranslator):
                         self.nominal.pop(s[1], None)
                 L.append("let%s %s := %s in" % ("" if pure else "!", pat, v))
             elif k == "assign":
+                self.cur_rest = rest
                 self.assign5(s, cx)
             elif k == "macro":
                 self.need(s[2], "bool", cx.env, "bool")
@@ -1823,6 +2017,22 @@ class FnT5(FnTranslator):
                 return L + flow.brk(self, cx)
             elif k in ("while", "for"):
                 return self.loop(s, rest, tail, cx, flow)
+            elif k == "expr" and s[1][0] == "iflet":
+                _, x, oe, th, el = s[1]
+                if not self.diverges(th) or (el is not None and self.may_leave(el)):
+                    self.fail("`if let` statement whose first arm does not always leave (or whose else arm leaves)")
+                ot = self.ty(oe, None, cx.env)
+                if not (isinstance(ot, tuple) and ot[0] == "option"):
+                    self.fail("`if let Some(..)` on a value of type %s" % (ot,))
+                v = self.val(oe, None, cx)
+                sub = self.subcx(cx)
+                xc = sub.bind(x, ot[1])
+                arm1 = self.seq(th[1], th[2], sub, flow)
+                sub2 = self.subcx(cx)
+                st2 = list(el[1]) if el is not None else []
+                arm2 = self.seq(st2 + list(rest), tail, sub2, flow)
+                return L + ["match %s with" % v, "| Some %s =>" % xc] + ["    " + l for a in arm1 for l in a.split("\n")] + \
+                    ["| None =>"] + ["    " + l for a in arm2 for l in a.split("\n")] + ["end"]
             elif k == "expr" and s[1][0] == "if":
                 _, c, th, el = s[1]
                 d_th, d_el = self.diverges(th), (el is not None and self.diverges(el))
@@ -1871,6 +2081,8 @@ class FnT5(FnTranslator):
             e = e[1] if e[0] == "ref" else e[2]
         if e[0] == "index" and self.soa_chain(e[1]) is not None:
             return self.soa_chain(e[1]), e[2]
+        if e[0] == "index" and self.osoa_unwrap(e[1]) is not None:
+            return self.osoa_unwrap(e[1]), e[2]
         return None
 
     def call_stmt(self, e, cx):
@@ -1924,6 +2136,8 @@ class FnT5(FnTranslator):
             if op:
                 self.fail("compound assignment to uninitialised `%s`" % lhs[1])
             t = t or self.ty(rhs, None, cx.env)
+            if t is None:
+                t = self.later_type(lhs[1], (list(getattr(self, "cur_rest", [])), None, None), cx.env)
             if t is None:
                 self.fail("`let %s;` whose first assignment has no determined type" % lhs[1])
             v, pure = self.emit(rhs, t, cx)
@@ -2240,7 +2454,7 @@ def generate(repo, group, count=None):
             if n >= T5_START and rel != rel_g:
                 continue
             raise Unsupported("%s: fn %s: unsupported construct (internal translator error: %r)" % (rel, fname, e))
-        key = (rel, owner, fname.split("::")[-1])
+        key = (rel, owner, fname.split("@")[0].split("::")[-1])
         if subst:
             world.monosigs.setdefault(key, []).append((dict(subst), sig))
         else:
